@@ -5,7 +5,7 @@ use std::sync::OnceLock;
 use vcore::proptest::prelude::*;
 use vcore::{Cx, Level, Res};
 
-const RULE: &str = "cases are (a) the COMPLETE product of event classes — kind {absent, typed span, typed metric, text span, text metric, unknown text, upper-case SPAN, mixed-case Metric, padded ' metric ', integer, bool} x extent {none, point, range, empty range} x metric value {int, float, int seq, float seq, mixed numeric seq, empty seq, nested seq, seq with a text element, text, numeric-looking text, bool, missing, u64 above i64::MAX; sequences captured through sval and through serde} x aggregation {absent, sum, count, last, min, max} x all 8 subsets of configured signals x wire {HTTP/protobuf, HTTP/JSON, both with gzip, gRPC, gRPC with gzip}, each class one case served by a real emit_otlp emitter per (subset, wire) talking to the scripted collector, (a2) the COMPLETE product kind {typed span, typed metric, 'span', 'metric', ' SPAN ', 'Metric', 'spam'} x representation of the kind value {live emit::Kind / &str, owned String, Value::from_display, Display-only newtype, format_args} x buffering of the props on the way to the emitter {none, Value::to_owned, Value::to_shared, owned copy replayed on another thread} x extent {point, range} x value {int, float seq, text, missing} x aggregation {absent, sum} x 8 subsets x 3 wires, and (b) random streams of 1-6 events with random payloads (other integer/float widths, NaN/inf, null, random kind texts and case/padding variants, extra properties, kind property first or last) over random per-signal wire mixes. Non-trivial = the event carries (or may carry) a span/metric kind but that kind's signal is not configured or the event fails the kind's qualification (metric without a numeric/numeric-sequence value, span without a range extent).";
+const RULE: &str = "cases are (a) the COMPLETE product of event classes — kind {absent, typed span, typed metric, text span, text metric, unknown text, upper-case SPAN, mixed-case Metric, padded ' metric ', integer, bool} x extent {none, point, range, empty range} x metric value {int, float, int seq, float seq, mixed numeric seq, empty seq, nested seq, seq with a text element, text, numeric-looking text, bool, missing, u64 above i64::MAX; sequences captured through sval and through serde} x aggregation {absent, sum, count, last, min, max} x all 8 subsets of configured signals x wire {HTTP/protobuf, HTTP/JSON, both with gzip, gRPC, gRPC with gzip}, each class one case served by a real emit_otlp emitter per (subset, wire) talking to the scripted collector, (a2) the COMPLETE product kind {typed span, typed metric, 'span', 'metric', ' SPAN ', 'Metric', 'spam'} x representation of the kind value {live emit::Kind / &str, owned String, Value::from_display, Display-only newtype, format_args} x buffering of the props on the way to the emitter {none, Value::to_owned, Value::to_shared, owned copy replayed on another thread} x extent {point, range} x value {int, float seq, text, missing} x aggregation {absent, sum} x 8 subsets x 3 wires, (c) concurrent discards: a configuration without logs, 2-8 threads released by a barrier, each emitting up to 60 k events no configured signal can take (tight loop over one prebuilt event) plus a few exportable ones; after the threads joined event_discarded must equal the reference's count exactly, and (b) random streams of 1-6 events with random payloads (other integer/float widths, NaN/inf, null, random kind texts and case/padding variants, extra properties, kind property first or last) over random per-signal wire mixes. Non-trivial = the event carries (or may carry) a span/metric kind but that kind's signal is not configured or the event fails the kind's qualification (metric without a numeric/numeric-sequence value, span without a range extent).";
 
 // ---------------------------------------------------------------------------------------------
 // (a) complete class product
@@ -399,6 +399,14 @@ fn check_stream(s: &vcore::Session, case: &StreamCase, cx: &mut Cx) -> Res {
     Ok(())
 }
 
+fn concurrent_case() -> impl Strategy<Value = ConcurrentCase> {
+    let shape = prop::sample::select(vec![DropShape::NoKind, DropShape::SpanWithoutRange, DropShape::MetricWithoutNumber, DropShape::UnknownKind]);
+    let drops = prop_oneof![2 => 0u32..2_000, 3 => 5_000u32..20_000, 2 => 40_000u32..60_000];
+    let plan = (shape, drops, prop::collection::vec(any::<bool>(), 0..4)).prop_map(|(shape, drops, exports)| ThreadPlan { shape, drops, exports });
+    let threads = prop_oneof![2 => prop::collection::vec(plan.clone(), 2..=8), 1 => prop::collection::vec(plan, 8..=8)];
+    (prop::sample::select(vec![0u8, 2, 4, 6]), wire(), threads).prop_map(|(subset, wire, threads)| ConcurrentCase { subset, wire, threads })
+}
+
 fn main() {
     vcore::run(
         "C14",
@@ -459,6 +467,19 @@ fn main() {
             s.enumerate("kind-representation-product", repr_cases, move |c, cx| check_repr(s, c, cx));
 
             s.gen("random-streams", s.n(6000, 200_000), stream_case, |c, cx| check_stream(s, c, cx));
+
+            // the discard counter under concurrency: exact after the emitting threads have joined
+            s.require("concurrent-discards:>=2-threads-dropping", 30);
+            s.require("concurrent-discards:>=100k-drops", 10);
+            s.require("concurrent-discards:with-exported-events", 20);
+            s.gen("concurrent-discards", s.n(48, 2_000), concurrent_case, |c, cx| match check_concurrent(c, cx) {
+                Ok(Ok(())) => Ok(()),
+                Ok(Err(p)) => {
+                    s.inconclusive(format!("harness: {p}"));
+                    Ok(())
+                }
+                Err(f) => Err(f),
+            });
         },
     )
 }
